@@ -55,7 +55,7 @@ class Site:
 class Con:
     """One construct of the menu."""
 
-    __slots__ = ("src", "binds", "assigns", "counts", "site", "toks", "is_block", "top_only", "tags")
+    __slots__ = ("src", "binds", "assigns", "counts", "site", "toks", "is_block", "top_only")
 
     def __init__(self, src: str, *, binds: tuple[str, ...] = (), assigns: tuple[str, ...] = (),
                  counts: tuple[str, ...] = (), site: Optional[Site] = None, top_only: bool = False):
@@ -117,7 +117,7 @@ class Item:
 class Printed:
     """Source text of one template plus the generator's lexical facts about it."""
 
-    __slots__ = ("name", "source", "refs", "binds", "assigns", "sites", "markers", "dead_after")
+    __slots__ = ("name", "source", "refs", "binds", "assigns", "sites", "markers")
 
     def __init__(self, name: str):
         self.name = name
